@@ -4,6 +4,7 @@ import (
 	"bytes"
 	"context"
 	"encoding/json"
+	"errors"
 	"fmt"
 	"os"
 	"os/exec"
@@ -12,6 +13,7 @@ import (
 	"sort"
 	"strings"
 	"sync"
+	"sync/atomic"
 	"testing"
 	"time"
 
@@ -62,6 +64,20 @@ func raceBackendOps(be Backend, km *KeyMap, g int, ttlWrites bool) map[string]fu
 }
 
 var raceBackendNames = []string{"Read", "Write", "Delete", "Len", "ExpireAll", "DeleteAll", "Walk", "Dump", "Restore", "Janitor"}
+
+// flakyDeleter fails every other Delete with an error that is not ErrNotFound (only used by one goroutine).
+type flakyDeleter struct {
+	inner cache.Deleter
+	n     int64
+}
+
+func (f *flakyDeleter) Delete(ctx context.Context, key []byte) error {
+	if atomic.AddInt64(&f.n, 1)%2 == 0 {
+		return errors.New("deleter unavailable")
+	}
+
+	return f.inner.Delete(ctx, key)
+}
 
 type yieldDeleter struct{ inner cache.Deleter }
 
@@ -163,9 +179,17 @@ func TestRaceChild(t *testing.T) {
 								ctx = cache.WithTTL(ctx, -time.Second, false) // stored expired: stale paths, background updates
 							}
 
-							_, _ = fo.Get(ctx, append([]byte(nil), km.ByModel[mk]...), func(bctx context.Context) (string, error) {
+							// the caller owns the key buffer again as soon as Get has returned - also while a background update
+							// of that key is still running - and rewrites it at once
+							buf := append([]byte(nil), km.ByModel[mk]...)
+
+							_, _ = fo.Get(ctx, buf, func(bctx context.Context) (string, error) {
 								return s.build(bctx, p, mk, func() bool { return false })
 							})
+
+							for j := range buf {
+								buf[j] = 'x'
+							}
 
 							if i%11 == 0 {
 								fo.Backend().ExpireAll(context.Background())
@@ -219,6 +243,24 @@ func TestRaceChild(t *testing.T) {
 					}
 
 					_, _ = idx.InvalidateByLabels(context.Background(), "a")
+				}, iters*4)
+		}
+
+		// deleters that fail every other time: the put-back of unprocessed keys runs next to AddLabels
+		{
+			idx := cache.NewInvalidationIndex()
+			be := NewBackend("ShardedMap", cache.Config{})
+			fd := &flakyDeleter{inner: be.Raw().(cache.Deleter)}
+			idx.AddCache("n0", fd)
+
+			mark("AddLabelsSameLabel|InvalidateFailing")
+			runPair(func(i int) { idx.AddLabels("n0", km.ByModel[fmt.Sprintf("k%d", 1+i%4)], "a", "b") },
+				func(i int) {
+					for j := 1; j <= 4; j++ {
+						idx.AddLabels("n0", km.ByModel[fmt.Sprintf("k%d", j)], "a", "b")
+					}
+
+					_, _ = idx.InvalidateByLabels(context.Background(), "a", "b")
 				}, iters*4)
 		}
 
